@@ -29,7 +29,9 @@ ASSUMPTIONS = [
     'a close() that reports an error has still closed the descriptor (Linux)',
 ]
 RULE = ('bounded-exhaustive operation sequences over 2 lock objects x 2 threads on one real lock file: '
-        'acquire non-blocking / timed 0 / timed 120 ticks / blocking, release, release(force=True); all sequences up to '
+        'acquire non-blocking / timed 0 / timed 120 ticks / blocking, release, release(force=True), and whole with-blocks '
+        '(acquire_ctx non-blocking / timed / blocking and the plain with-statement; a block counts as its acquire plus, only '
+        'if entered, a plain release; sequences containing one are enumerated one step shorter); all sequences up to '
         'length 3 (quick) / 4 (thorough) for reentrancy configurations FF, TF, TT, each followed by a full release and '
         'a re-acquire probe by every (object, thread); random sequences up to length 12; every single and double '
         'OSError injection into open / lock / unlock / close at each call index over the sequences up to length 2 '
@@ -39,6 +41,9 @@ RULE = ('bounded-exhaustive operation sequences over 2 lock objects x 2 threads 
 MODES = ['n', 't0', 't120', 'b']
 ALPHABET = ([('a', o, t, m) for o in (0, 1) for t in (0, 1) for m in MODES] +
             [('r', o, t, f) for o in (0, 1) for t in (0, 1) for f in (False, True)])
+# whole with-blocks: `with obj.acquire_ctx(blocking=False / timeout / blocking)` and the plain `with obj:`
+XMODES = ['n', 't0', 't120', 'b', 'w']
+ALPHABET_X = ALPHABET + [('x', o, t, m) for o in (0, 1) for t in (0, 1) for m in XMODES]
 CONFIGS = [(False, False), (True, False), (True, True)]
 
 
@@ -51,6 +56,8 @@ def closing_ops(reent, ops):
             _, o, t, m = op
             if hold is None or (hold[0] == o and hold[1] == t and reent[o]):
                 hold = (o, t, (hold[2] + 1) if hold else 1)
+        elif op[0] == 'x':
+            pass                 # a with-block gives back what it took
         else:
             _, o, t, force = op
             if hold is not None and hold[0] == o:
@@ -67,12 +74,17 @@ def closing_ops(reent, ops):
     return tail
 
 
-def check_case(drv_answers, case, out, workdir):
-    reent, faults, ops, tail = case['reent'], case['faults'], case['ops'], case['tail']
-    full = ops + (tail or [])
+def run_case(case, workdir):
+    full = case['ops'] + (case['tail'] or [])
     mark(case)
+    res, env, flat = F.run_seq(case['reent'], case['faults'], full, workdir, expand=True)
+    return res, env, flat
+
+
+def check_case(drv_answers, case, out, real):
+    reent, faults, ops, tail = case['reent'], case['faults'], case['ops'], case['tail']
+    res, env, full = real
     out.evaluations += 1
-    res, env = F.run_seq(reent, faults, full, workdir)
     model = drv_answers.partition('res=')[2].split(';') if drv_answers.partition('res=')[2] else []
     out.traces_validated += 1
     if res != model:
@@ -92,6 +104,7 @@ def check_case(drv_answers, case, out, workdir):
         out.fingerprints.add(fingerprint(case))
     out.count('len:%d' % len(ops))
     out.count('faults:%d' % len(faults))
+    out.count('with-blocks:%d' % sum(1 for o in ops if o[0] == 'x'))
     for r in res:
         out.count('res:' + r.split('/')[0])
     return env
@@ -147,14 +160,26 @@ def _chunk(payload):
                             continue
                         ops = list(seq)
                         cases.append({'reent': list(cfg), 'faults': [], 'ops': ops, 'tail': closing_ops(cfg, ops)})
+            # with-blocks: every sequence over the extended alphabet that contains one, one step shorter
+            for cfg in CONFIGS:
+                for n in range(1, L):
+                    for seq in itertools.product(ALPHABET_X, repeat=n):
+                        if not any(o[0] == 'x' for o in seq):
+                            continue
+                        idx += 1
+                        if idx % nparts != part:
+                            continue
+                        ops = list(seq)
+                        cases.append({'reent': list(cfg), 'faults': [], 'ops': ops, 'tail': closing_ops(cfg, ops)})
         elif kind == 'random':
             rng = rng_for(seed, 'c12', part)
             for _ in range(600 if quick else 20000):
                 cfg = rng.choice(CONFIGS)
                 n = rng.randint(4, 12)
                 ops = []
+                alpha = ALPHABET_X if rng.random() < 0.5 else ALPHABET
                 for _ in range(n):
-                    ops.append(rng.choice(ALPHABET))
+                    ops.append(rng.choice(alpha))
                 cases.append({'reent': list(cfg), 'faults': [], 'ops': ops, 'tail': closing_ops(cfg, ops)})
         else:  # faults: every single and double injection over short sequences
             L = 2 if quick else 3
@@ -163,11 +188,11 @@ def _chunk(payload):
             base = []
             for cfg in CONFIGS:
                 for n in range(1, L + 1):
-                    for seq in itertools.product(ALPHABET, repeat=n):
+                    for seq in itertools.product(ALPHABET_X, repeat=n):
                         idx += 1
                         if idx % nparts != part:
                             continue
-                        if n == L and rng.random() < (0.7 if quick else 0.85):
+                        if n == L and rng.random() < (0.8 if quick else 0.9):
                             continue
                         base.append((cfg, list(seq)))
             for cfg, ops in base:
@@ -188,9 +213,10 @@ def _chunk(payload):
         B = 4000
         for k in range(0, len(cases), B):
             batch = cases[k:k + B]
-            answers = drv.ask([F.model_line(c['reent'], c['faults'], c['ops'] + (c['tail'] or [])) for c in batch])
-            for c, a in zip(batch, answers):
-                env = check_case(a, c, out, work)
+            reals = [run_case(c, work) for c in batch]
+            answers = drv.ask([F.model_line(c['reent'], c['faults'], r[2]) for c, r in zip(batch, reals)])
+            for c, a, r in zip(batch, answers, reals):
+                env = check_case(a, c, out, r)
                 if c['faults']:
                     for f in c['faults']:
                         if f < len(env.calls):
@@ -230,7 +256,7 @@ def search(ctx, outcome):
                 if tail is None:
                     break
                 full = pre + tail
-                res, env = F.run_seq(c['reent'], c['faults'], full, work)
+                res, env, full = F.run_seq(c['reent'], c['faults'], full, work, expand=True)
                 out.evaluations += 1
                 msg = F.contract(c['reent'], full, res) if not c['faults'] else fault_monitor(c['reent'], full, res, env)
                 if msg:
@@ -247,7 +273,7 @@ def replay(ctx, payload):
     ops = [tuple(o) for o in c['ops']] + [tuple(o) for o in (c.get('tail') or [])]
     work = F.mkworkdir()
     try:
-        res, env = F.run_seq(c['reent'], c['faults'], ops, work)
+        res, env, ops = F.run_seq(c['reent'], c['faults'], ops, work, expand=True)
     finally:
         F.rmworkdir(work)
     ans = ctx.driver.ask([F.model_line(c['reent'], c['faults'], ops)])[0]
